@@ -1,18 +1,53 @@
 //go:build verif
 
 // Contracts for the verification machinery in /verif (comment-only; compiled only with -tags verif).
+// Syntax and semantics: /verif/DESIGN.md section 2. Schemas: /verif/contracts/schemas.
 package interpreter
 
-//@ func NewInt8Value
-//@   inline
-//@ func NewUnmeteredInt8Value
-//@   inline
+// ---- native-width signed integers (C11, C13, C18)
+//@ schema sint_native(T=Int8Value,  N=Int8,  min=-pow2(7),  max=pow2(7)-1)
+//@ schema sint_native(T=Int16Value, N=Int16, min=-pow2(15), max=pow2(15)-1)
+//@ schema sint_native(T=Int32Value, N=Int32, min=-pow2(31), max=pow2(31)-1)
+//@ schema sint_native(T=Int64Value, N=Int64, min=-pow2(63), max=pow2(63)-1)
 
-//@ func (Int8Value).Plus
-//@   requires other != nil
-//@   let a = num(v)
-//@   let b = num(other.(Int8Value))
-//@   fails kind(other) != Int8Value => InvalidOperandsError
-//@   fails[C11] kind(other) == Int8Value && (a + b > 127 || a + b < -128) => OverflowError|UnderflowError
-//@   ensures[C11] kind(result) == Int8Value && num(result) == a + b
-//@   env MemoryMeteringError
+// ---- native-width unsigned integers (C11, C13, C18)
+//@ schema uint_native(T=UInt8Value,  N=UInt8,  max=pow2(8)-1)
+//@ schema uint_native(T=UInt16Value, N=UInt16, max=pow2(16)-1)
+//@ schema uint_native(T=UInt32Value, N=UInt32, max=pow2(32)-1)
+//@ schema uint_native(T=UInt64Value, N=UInt64, max=pow2(64)-1)
+
+// ---- native-width words (C12, C18)
+//@ schema word_native(T=Word8Value,  N=Word8,  bits=8)
+//@ schema word_native(T=Word16Value, N=Word16, bits=16)
+//@ schema word_native(T=Word32Value, N=Word32, bits=32)
+//@ schema word_native(T=Word64Value, N=Word64, bits=64)
+
+//@ func safeAddInt64
+//@   let exact = a + b
+//@   fails[C11] exact > pow2(63)-1 || exact < -pow2(63) => OverflowError|UnderflowError
+//@   ensures[C11] result == exact
+
+// ---- 128/256-bit integers backed by math/big (C11, C12, C13, C18)
+//@ typenum Int128Value: big(self.BigInt)
+//@ typeinv Int128Value: self.BigInt != nil && inrange(big(self.BigInt), -pow2(127), pow2(127)-1)
+//@ typenum Int256Value: big(self.BigInt)
+//@ typeinv Int256Value: self.BigInt != nil && inrange(big(self.BigInt), -pow2(255), pow2(255)-1)
+//@ typenum UInt128Value: big(self.BigInt)
+//@ typeinv UInt128Value: self.BigInt != nil && inrange(big(self.BigInt), 0, pow2(128)-1)
+//@ typenum UInt256Value: big(self.BigInt)
+//@ typeinv UInt256Value: self.BigInt != nil && inrange(big(self.BigInt), 0, pow2(256)-1)
+//@ typenum Word128Value: big(self.BigInt)
+//@ typeinv Word128Value: self.BigInt != nil && inrange(big(self.BigInt), 0, pow2(128)-1)
+//@ typenum Word256Value: big(self.BigInt)
+//@ typeinv Word256Value: self.BigInt != nil && inrange(big(self.BigInt), 0, pow2(256)-1)
+
+//@ schema sint_big(T=Int128Value, N=Int128, min=-pow2(127), max=pow2(127)-1)
+//@ schema sint_big(T=Int256Value, N=Int256, min=-pow2(255), max=pow2(255)-1)
+//@ schema uint_big(T=UInt128Value, N=UInt128, max=pow2(128)-1)
+//@ schema uint_big(T=UInt256Value, N=UInt256, max=pow2(256)-1)
+//@ schema word_big(T=Word128Value, N=Word128, bits=128)
+//@ schema word_big(T=Word256Value, N=Word256, bits=256)
+//@ func NewInt128ValueFromInt64
+//@   inline
+//@ func NewInt256ValueFromInt64
+//@   inline
